@@ -154,4 +154,41 @@ def arith_pool(rng, quick):
     for _ in range(n):
         pool.append(['sp', rng.getrandbits(32)]); pool.append(['dp', rng.getrandbits(64)])
         pool.append(['semp', rng.choice((1, -1)), rng.randint(-50, 50), rng.getrandbits(rng.randint(1, 80)), 1 << rng.randint(0, 80)])
+    pool += history_operands(rng, quick)
     return pool
+
+
+def _finite_leaf(rng, fmt):
+    """a finite, non-zero pattern of the format with a full significand (odd mantissa), moderate exponent"""
+    eb, mb = {'hp': (5, 10), 'sp': (8, 23), 'dp': (11, 52)}[fmt]
+    bias = (1 << (eb - 1)) - 1
+    e = bias + rng.randint(-3, 3)
+    return [fmt, (rng.getrandbits(1) << (eb + mb)) | (e << mb) | rng.getrandbits(mb) | 1]
+
+
+def history_operands(rng, quick):
+    """operands that are RESULTS of earlier FPNum operations (descriptor ['expr', op, d1, d2]): running products of k factors, balanced
+    products, squares of 1 + 2^-k given as (s, e, m, p), alternating multiply / add / subtract chains, and raw components whose precision
+    is far beyond a double's.  The claim is exactness on the rationals for EVERY operand an FPNum can hold, and the only way to a
+    long significand is through a history of operations."""
+    out = []
+    for fmt, ks in (('dp', (2, 3, 4, 5, 8)), ('sp', (4, 9, 10, 14)), ('hp', (8, 21, 24))):
+        for k in (ks if not quick else ks[:3] + ks[-1:]):
+            d = _finite_leaf(rng, fmt)
+            for _ in range(k - 1): d = ['expr', 'mul', d, _finite_leaf(rng, fmt)]
+            out.append(d)
+    a, b, c, e = (_finite_leaf(rng, 'dp') for _ in range(4))
+    out.append(['expr', 'mul', ['expr', 'mul', a, b], ['expr', 'mul', c, e]])
+    for k in (60, 101, 120, 150, 260):
+        one_eps = ['semp', 1, 0, (1 << k) + 1, 1 << k]
+        out.append(one_eps)
+        out.append(['expr', 'mul', one_eps, one_eps])
+    out.append(['semp', -1, 7, (1 << 330) + (1 << 165) + 1, 1 << 330])
+    out.append(['semp', 1, -40, (1 << 401) - 1, 1 << 400])
+    for _ in range(3 if quick else 12):
+        d = _finite_leaf(rng, rng.choice(('sp', 'dp')))
+        for i in range(rng.randint(5, 14)):
+            d = ['expr', rng.choice(('mul', 'mul', 'add', 'sub')), d, _finite_leaf(rng, rng.choice(('hp', 'sp', 'dp')))]
+            if rng.random() < 0.3: d = ['expr', 'mul', d, d]
+        out.append(d)
+    return out
